@@ -33,7 +33,8 @@ def b_energy(cl, mod, H, which):
     E = lambda nm: LE(BitVecVal(0, 64), SignExt(32, Z), BitVecVal(-H[nm + '_LINE'] - 1, 64))
     R = lambda nm: RR(BitVecVal(0, 64), SignExt(32, Z), BitVecVal(-H[nm + '_LINE'] - 1, 64))
     zin = And(Z >= 1, Z <= H['ZMAX'])
-    inv2name = {v: k[:-5] for k, v in H.items() if k.endswith('_LINE') and isinstance(v, int) and v < 0 and re.fullmatch(r'[KLMNOP]\d?[LMNOPQ]\d{0,2}|K[OP]', k[:-5])}
+    from vlib.headers import iupac_lines
+    inv2name = {v: n for n, v in iupac_lines(H).items()}
     fns = ['LineEnergy', 'LineEnergyComposed', 'RadRate']
     okfail = lambda val: And(r.rv == val, Not(r.errset), r.overwrites == 0)
     fail = And(r.rv == 0, r.errset, r.sets_on_slot == 1, r.errcode() == 1, r.overwrites == 0)
